@@ -105,6 +105,24 @@ func (x *Exec) analyze() (err error) {
 		}
 		st.assume(t)
 	}
+	// Skolemise the quantified variables of this function's own post-conditions now and
+	// harvest the arguments of sequence constructors as instantiation terms for the
+	// quantified post-conditions of callees (engine-side instantiation keeps queries quantifier free).
+	x.preSk = map[*CExpr]V{}
+	var hclauses []*Clause
+	hclauses = append(hclauses, con.GhostDefs...)
+	hclauses = append(hclauses, con.Requires...)
+	hclauses = append(hclauses, con.Ensures...)
+	for _, en := range hclauses {
+		henv := x.contractEnv(st, args, entryMem)
+		henv.prove, henv.harvest, henv.skolems = true, true, x.preSk
+		for _, n := range resultNames(x.fn.Signature) {
+			if _, ok := henv.vars[n]; !ok {
+				henv.vars[n] = V{} // results are unknown yet; harvesting tolerates failures
+			}
+		}
+		x.harvestClause(henv, en.Expr)
+	}
 	x.cover(st, x.key+"#cover.pre", "cover", con.Safety, x.posOf(x.fn.Pos()), "precondition and type invariants are satisfiable")
 	st.frames = nil
 	outs := x.runFuncTop(st, args, entryMem)
@@ -126,6 +144,7 @@ func (x *Exec) analyze() (err error) {
 			x.cover(o.st, x.key+"#cover.return", "cover", con.Safety, x.posOf(x.fn.Pos()), "a return is reachable under the assumed callee contracts (canary: false is not provable)")
 		}
 		env.prove = true
+		env.skolems = x.preSk
 		for i, en := range con.Ensures {
 			name := fmt.Sprintf("%s#ensures%d", x.key, i+1)
 			s2 := o.st
@@ -261,4 +280,58 @@ func (x *Exec) entryBrk(sp string) (string, bool) {
 		return "brk" + sp + "0", true
 	}
 	return "", false
+}
+
+// harvestClause Skolemises the leading foralls of a clause and evaluates the
+// arguments of venc(...) occurring in it, tolerating sub-expressions that
+// cannot be evaluated before the function has run (results).
+func (x *Exec) harvestClause(env *CEnv, e *CExpr) {
+	for e != nil && e.Op == "forall" {
+		w, signed, ok := typeByName(e.VTyp, env.tparam)
+		if !ok {
+			return
+		}
+		name := env.st.freshConst("sk_"+e.Var, sortBV(w))
+		v := vBV(name, w, signed)
+		env.skolems[e] = v
+		env.vars[e.Var] = v
+		e = e.Args[0]
+	}
+	var walk func(e *CExpr)
+	walk = func(e *CExpr) {
+		if e == nil {
+			return
+		}
+		if e.Op == "forall" || e.Op == "exists" {
+			return
+		}
+		if e.Op == "call" && e.Tok == "venc" && len(e.Args) == 1 {
+			var sub func(a *CExpr)
+			sub = func(a *CExpr) {
+				func() {
+					defer func() { recover() }()
+					v := env.eval(a)
+					if v.K == KPtr {
+						v = vBV(v.T, 64, false)
+					}
+					if v.K == KBV && v.W == 0 {
+						return
+					}
+					if v.K == KBV && v.W == 64 {
+						env.st.addPool(64, env.st.define("inst", sortBV(64), v.T))
+					}
+				}()
+				if a.Op == "call" {
+					for _, b := range a.Args {
+						sub(b)
+					}
+				}
+			}
+			sub(e.Args[0])
+		}
+		for _, a := range e.Args {
+			walk(a)
+		}
+	}
+	walk(e)
 }
